@@ -215,6 +215,7 @@ func (s *Script) render(decls []string, only int, incremental bool) string {
 				if incremental {
 					b.WriteString("(push 1)\n")
 				}
+				fmt.Fprintf(&b, "; ob %s\n", e.ob.ID)
 				if e.kind == evCheck {
 					fmt.Fprintf(&b, "(assert (not %s))\n", e.term)
 				}
